@@ -78,8 +78,15 @@ class ErrorRender:
 
 	def __build_message(self) -> str:
 		"""Returns: 例外メッセージ"""
-		join_args = ', '.join([f'"{arg}"' if isinstance(arg, str) else str(arg) for arg in self.e.args])
+		join_args = ', '.join([f'"{arg}"' if isinstance(arg, str) else self.__stringify(arg) for arg in self.e.args])
 		return f'({join_args})'
+
+	def __stringify(self, arg: object) -> str:
+		"""Note: 文字列化に失敗する引数(参照先の解決に失敗するノード等)はクラス名のみ出力"""
+		try:
+			return str(arg)
+		except Exception:
+			return f'<{arg.__class__.__name__}: (unprintable)>'
 
 	class Quotation:
 		"""引用ビルダー"""
